@@ -725,8 +725,6 @@ def evaluate(case):
 def run(ctx):
     tr = common.run_translators() if False else None
     ok = common.prove(ctx, ['C17'])
-    if any('pxssh_table.py refused' in n for n in ctx.notes):
-        ctx.broken.append('T-pxssh refused the current pexpect/pxssh.py: ' + [n for n in ctx.notes if 'pxssh_table' in n][0][-200:])
     if not ctx.quick():
         common.leanchecker(ctx, ['C17'])
     cases = [finish_case(c, ctx.rng) for c in CORPUS]
